@@ -691,6 +691,79 @@ pub fn run(run: &Run) {
             }
         }
     }
+    // ---- message stream ids as a value dimension: every id 0..=70 and ids around byte boundaries ----
+    {
+        let mut scripts = 0u64;
+        let ids: Vec<u32> = (0..=70u32).chain([255, 256, 257, 65_535, 65_536, 0xFF_FFFF, 0x100_0000, 0x7FFF_FFFF, 0x8000_0000, 0xFFFF_FFFE]).collect();
+        // client: the server answers createStream with the id
+        for &sid in ids.iter() {
+            let g = CG { c: Counters::new(&NAMES), big: 200 };
+            let mut cur = match client_start(128) {
+                Ok(s) => s,
+                Err(_) => continue,
+            };
+            let script = vec![
+                CAct::RequestConnection { app: "a".into() }, CAct::Result { tx: 1.0, stream: None },
+                CAct::RequestPublishing { key: "k".into(), kind: 0 }, CAct::Result { tx: 2.0, stream: Some(sid as f64) },
+                CAct::OnStatus { code: "NetStream.Publish.Start".into() },
+                CAct::PublishVideo { ts: 10, len: 3, droppable: false }, CAct::PublishAudio { ts: 12, len: 200, droppable: true },
+                CAct::PublishMeta { variant: 5 }, CAct::PublishVideo { ts: 50, len: 3, droppable: false }, CAct::PublishAudio { ts: 52, len: 0, droppable: false },
+            ];
+            let mut done: Vec<Value> = Vec::new();
+            for a in script.iter() {
+                let o = g.step(&cur, a);
+                ti += o.impl_steps;
+                tt += 1;
+                done.push(describe_cact(a));
+                if let Some((sig, d)) = o.viol.into_iter().next() {
+                    run.violation(&sig, &d, json!({"plan": "client publishing on message stream id sweep", "message_stream_id": sid, "ops": done}));
+                    break;
+                }
+                // the successor in which nothing was dropped comes first
+                cur = match o.succ.into_iter().next() {
+                    Some(x) => x,
+                    None => break,
+                };
+            }
+            scripts += 1;
+        }
+        // server: the id is the number of streams created so far on the connection
+        for target in [1u32, 14, 15, 16, 63, 64, 65, 70] {
+            let g = SG { c: Counters::new(&NAMES), big: 200 };
+            let mut cur = match server_start(128) {
+                Ok(s) => s,
+                Err(_) => continue,
+            };
+            let mut script: Vec<SAct> = vec![SAct::Connect { tx: 1.0, app: "a".into() }, SAct::Accept { id: 0 }];
+            for k in 0..target {
+                script.push(SAct::CreateStream { tx: 2.0 + k as f64 });
+            }
+            script.extend(vec![
+                SAct::Play { sid: target, key: "k".into() }, SAct::Accept { id: 1 },
+                SAct::SendVideo { sid: target, ts: 10, len: 3, droppable: false }, SAct::SendAudio { sid: target, ts: 12, len: 200, droppable: true },
+                SAct::SendMeta { sid: target, variant: 5 }, SAct::SendVideo { sid: target, ts: 50, len: 3, droppable: false }, SAct::SendAudio { sid: target, ts: 52, len: 0, droppable: false },
+            ]);
+            let mut done: Vec<Value> = Vec::new();
+            for a in script.iter() {
+                let o = g.step(&cur, a);
+                ti += o.impl_steps;
+                tt += 1;
+                if done.len() < 30 || !matches!(a, SAct::CreateStream { .. }) {
+                    done.push(describe_sact(a));
+                }
+                if let Some((sig, d)) = o.viol.into_iter().next() {
+                    run.violation(&sig, &d, json!({"plan": "server playing on the n-th created stream", "message_stream_id": target, "ops": done}));
+                    break;
+                }
+                cur = match o.succ.into_iter().next() {
+                    Some(x) => x,
+                    None => break,
+                };
+            }
+            scripts += 1;
+        }
+        run.count("message_stream_id_scripts", scripts);
+    }
     run.merge_hist(&agg.map());
     run.set("states", json!(ts));
     run.set("transitions", json!(tt));
